@@ -174,6 +174,8 @@ fn main() {
         Some("defrag-run") => defrag_run(&a),
         Some("opts-run") => per_line(&a, verif_harness::tcpopts::run_case),
         Some("cks-run") => per_line(&a, verif_harness::cks::run_case),
+        Some("wire-run") => per_line(&a, verif_harness::wire::run_case),
+        Some("fields-run") => per_line(&a, verif_harness::fields::run_case),
         Some("ext-run") => per_line(&a, verif_harness::extchain::run_config),
         other => {
             eprintln!("unknown sub command {:?}", other);
